@@ -776,6 +776,70 @@ func (a *attack) apply(op Op) {
 			host.AddChild(n)
 		}
 		a.note("smuggle %s evil assertion into %s", op.Mode, host.Tag)
+	case "fakeresp":
+		// a forged, unsigned copy of the Response (content evilised, signatures stripped, own ID) placed somewhere else in
+		// the document than where the binding puts the protocol message: in a soap:Header, as first child of the Body
+		// or of the Envelope, inside the ArtifactResponse before the genuine one / in its Status / in Extensions, or
+		// (non-artifact entries) inside the genuine Response's Status or Extensions
+		src := pick(byTag(a.root, "Response"), 0)
+		if src == nil {
+			return
+		}
+		e := src.Copy()
+		var strip func(x *etree.Element)
+		strip = func(x *etree.Element) {
+			for _, ch := range x.ChildElements() {
+				if ch.Tag == "Signature" {
+					x.RemoveChild(ch)
+				} else {
+					strip(ch)
+				}
+			}
+		}
+		strip(e)
+		evilize(e)
+		e.CreateAttr("ID", "id-forged-response-"+fmt.Sprint(len(a.log)))
+		if e.SelectAttr("xmlns:saml") == nil {
+			e.CreateAttr("xmlns:saml", forge.NSAssertion)
+		}
+		if e.SelectAttr("xmlns:samlp") == nil {
+			e.CreateAttr("xmlns:samlp", forge.NSProtocol)
+		}
+		var host *etree.Element
+		first := true
+		switch op.Where {
+		case "soap-header":
+			if a.root.Tag == "Envelope" {
+				host = etree.NewElement(a.root.Space + ":Header")
+				a.root.InsertChildAt(0, host)
+			}
+		case "envelope-first":
+			if a.root.Tag == "Envelope" {
+				host = a.root
+			}
+		case "body-first":
+			host = pick(byTag(a.root, "Body"), 0)
+		case "body-last":
+			host, first = pick(byTag(a.root, "Body"), 0), false
+		case "art-first":
+			host = pick(byTag(a.root, "ArtifactResponse"), 0)
+		case "in-status":
+			host = pick(byTag(a.root, "Status"), op.J)
+		case "in-extensions":
+			if t := pick(byTag(a.root, "ArtifactResponse", "Response"), op.J); t != nil {
+				host = ensureChild(t, "samlp:Extensions", false)
+			}
+		}
+		if host == nil {
+			return
+		}
+		a.forged = true
+		if first && len(host.Child) > 0 {
+			host.InsertChildAt(0, e)
+		} else {
+			host.AddChild(e)
+		}
+		a.note("forged unsigned Response placed %s", op.Where)
 	case "fakesig":
 		// an element merely *named* Signature (foreign / no / right namespace, empty or copied content)
 		t := pick(byTag(a.root, "Response", "Assertion", "ArtifactResponse"), op.I)
@@ -1020,7 +1084,7 @@ var whereGrid = []string{"child-last", "child-first", "in-signature-object", "in
 var sigGrid = []string{"keep-in-genuine", "copy-to-evil", "move-to-evil"}
 
 func genOp(t *rapid.T) Op {
-	kind := rapid.SampledFrom([]string{"xsw", "xsw", "xsw", "evilize", "evilize", "copy", "move", "remove", "remove", "splice", "setid", "refuri", "keyinfo", "resign", "resign", "comment", "foreignns", "fakesig", "smuggle", "smuggle", "encrypt", "encrypt"}).Draw(t, "kind")
+	kind := rapid.SampledFrom([]string{"xsw", "xsw", "xsw", "evilize", "evilize", "copy", "move", "remove", "remove", "splice", "setid", "refuri", "keyinfo", "resign", "resign", "comment", "foreignns", "fakesig", "fakeresp", "smuggle", "smuggle", "encrypt", "encrypt"}).Draw(t, "kind")
 	op := Op{Kind: kind, I: rapid.IntRange(0, 11).Draw(t, "i"), J: rapid.IntRange(0, 23).Draw(t, "j")}
 	switch kind {
 	case "xsw":
@@ -1050,6 +1114,8 @@ func genOp(t *rapid.T) Op {
 		op.Where = rapid.SampledFrom([]string{"", "sibling"}).Draw(t, "layout")
 		op.Key = rapid.SampledFrom([]string{"direct", "in-object"}).Draw(t, "wrap")
 		op.Sig = rapid.SampledFrom([]string{"last", "first"}).Draw(t, "pos")
+	case "fakeresp":
+		op.Where = rapid.SampledFrom(fakeRespPlaces).Draw(t, "place")
 	case "fakesig":
 		op.Mode = rapid.SampledFrom([]string{"evil-ns", "no-ns", "dsig-empty", "copy-foreign"}).Draw(t, "mode")
 		op.Where = rapid.SampledFrom([]string{"after-issuer", "last"}).Draw(t, "pos")
@@ -1275,6 +1341,40 @@ func enumSmuggle(_ string, emit func(Case)) {
 	}
 }
 
+var fakeRespPlaces = []string{"soap-header", "envelope-first", "body-first", "body-last", "art-first", "in-status", "in-extensions"}
+
+// enumFakeResponse: a forged unsigned Response in every other place of the document x every signed layout x entry x a
+// metadata, a pinned and a fingerprint trust configuration.
+func enumFakeResponse(_ string, emit func(Case)) {
+	for _, trust := range []string{"meta1", "pinned", "fp256"} {
+		for _, entry := range []string{"artifact", "xml", "post"} {
+			for _, layout := range []string{"resp", "assert", "both", "art", "art+resp"} {
+				g := Genuine{NAssert: 1, AsrtSigner: []string{""}, Encrypted: []bool{false}}
+				switch layout {
+				case "resp":
+					g.RespSigner = "idp"
+				case "assert":
+					g.AsrtSigner[0] = "idp"
+				case "both":
+					g.RespSigner, g.AsrtSigner[0] = "idp", "idp"
+				case "art":
+					g.ArtSigner = "idp"
+				case "art+resp":
+					g.ArtSigner, g.RespSigner = "idp", "idp"
+				}
+				if entry != "artifact" && g.ArtSigner != "" {
+					continue
+				}
+				for _, place := range fakeRespPlaces {
+					for j := 0; j < 2; j++ {
+						emit(Case{Trust: trust, Entry: entry, G: g, Ops: []Op{{Kind: "fakeresp", Where: place, J: j}}})
+					}
+				}
+			}
+		}
+	}
+}
+
 // enumReconfigured: one ServiceProvider value accepts genuine traffic under one trust configuration
 // and is then reconfigured to every other one; the same (untransformed) message is presented again.
 func enumReconfigured(_ string, emit func(Case)) {
@@ -1356,13 +1456,13 @@ var prop = &pbt.Prop[Case]{
 	ID: "C01",
 	Rule: "cases: a message built and signed by the harness (layouts Response/Assertion/both/neither/first-only signed, 1-2 assertions, plain or encrypted to the SP, signer in {trusted, second trusted, IdP encryption-only key, untrusted key with the same subject DN}, several signature methods, canonicalisers and KeyInfo styles, optionally inside a signed/unsigned ArtifactResponse) " +
 		"x trust configuration {metadata one cert, two certs + encryption cert, use omitted, pinned certificate, fingerprint sha256/sha512, second descriptor, two certificates in one descriptor, other roles of the entity with their own keys, truncated / empty fingerprint (trusts nothing)} x entry point {XML, POST, artifact} x attacker program of 0-6 operations " +
-		"(wrapping macro over the full placement grid, evil copies, move/copy/remove of any element, splicing from a second captured genuine message, ID and Reference URI edits, KeyInfo substitution incl. RSAKeyValue, re-signing with untrusted keys, comment/PI/CDATA splits, namespace tricks, encryption of forged or rearranged assertions to the SP with round-trip hazard tokens). " +
+		"(wrapping macro over the full placement grid, evil copies, a forged unsigned Response elsewhere in the document (soap:Header, Body, Status, Extensions), move/copy/remove of any element, splicing from a second captured genuine message, ID and Reference URI edits, KeyInfo substitution incl. RSAKeyValue, re-signing with untrusted keys, comment/PI/CDATA splits, namespace tricks, encryption of forged or rearranged assertions to the SP with round-trip hazard tokens). " +
 		"Conditions of genuine and forged assertions are valid for the SP, except that a genuine assertion may be stale (expired, not yet valid, other audience/recipient/request/issuer) beside its siblings; the ServiceProvider value may have served genuine traffic under ANOTHER trust configuration before being reconfigured to the one in force. oracle: whenever an assertion is returned, its identity fingerprint (issuer, name ID, confirmations, conditions, authn and attribute statements) must equal that of an assertion that the harness itself placed under a signature of a key the configured trust accepts. " +
 		"non-trivial: at least one operation, the presented document still carries a signature value, and it contains forged identity content (or no content at all was ever trusted, or the message as built mixes assertions that are covered by a trusted signature with ones that are not, or an accepted message carries delicate characters (CR, CRLF, tab/LF, markup, blanks, non-ASCII) in its signed values, which must come back exactly). distinct: sha256 of the JSON case.",
 	Gen:   gen,
 	Check: check,
 	Reset: fix.Reset,
-	Enums: []pbt.Enum[Case]{{Name: "xsw-placement-grid", Each: enumXSWGrid}, {Name: "untrusted-signers", Each: enumUntrusted}, {Name: "fake-signature-elements", Each: enumFakeSignatures}, {Name: "smuggled-descendant-assertions", Each: enumSmuggle}, {Name: "reconfigured-trust", Each: enumReconfigured}, {Name: "stale-signed-sibling", Each: enumStaleSibling}, {Name: "delicate-characters-in-signed-values", Each: enumSpice}},
+	Enums: []pbt.Enum[Case]{{Name: "xsw-placement-grid", Each: enumXSWGrid}, {Name: "untrusted-signers", Each: enumUntrusted}, {Name: "fake-signature-elements", Each: enumFakeSignatures}, {Name: "smuggled-descendant-assertions", Each: enumSmuggle}, {Name: "reconfigured-trust", Each: enumReconfigured}, {Name: "forged-response-elsewhere-in-the-document", Each: enumFakeResponse}, {Name: "stale-signed-sibling", Each: enumStaleSibling}, {Name: "delicate-characters-in-signed-values", Each: enumSpice}},
 	Assumptions: []string{
 		"absence of an accepting forgery is shown only for the generated program space",
 		"the dsig clock is pinned inside the fixtures' certificate validity",
